@@ -633,6 +633,7 @@ func runH3Stream(w *bufio.Writer, seed uint64, n int, _ []string) {
 			mode, clScen = int64(len(total)+r.Range(1, 20)), "cl-under"
 		}
 		bodyKind := r.Intn(2)
+		noContent := mode >= 0 && bodyKind == 1 && r.Chance(1, 4) // response to HEAD / 304
 		sched := h3Sched(r, len(data))
 		fw := r.Bool()
 		// ---- ops ----
@@ -660,7 +661,7 @@ func runH3Stream(w *bufio.Writer, seed uint64, n int, _ []string) {
 				return r.Range(1, 4096)
 			}
 		}
-		input := fmt.Sprintf("scenario=%s/%s data=%s sched=%v fin=(%d,%d) finWith=%v contentLength=%d maxHdr=%d", scen, clScen, h3trunc(data, 4000), sched, fc, fa, fw, mode, maxHdr)
+		input := fmt.Sprintf("scenario=%s/%s data=%s sched=%v fin=(%d,%d) finWith=%v contentLength=%d noContent=%v maxHdr=%d", scen, clScen, h3trunc(data, 4000), sched, fc, fa, fw, mode, noContent, maxHdr)
 		var opsS, resS []string
 		var got []byte
 		var lastCls, lastArg int64
@@ -679,7 +680,7 @@ func runH3Stream(w *bufio.Writer, seed uint64, n int, _ []string) {
 					fmt.Fprintf(w, "MONFAIL\th3stream/panic\tStream/body panicked: %v\t%s ops=%v\n", p, input, opsS)
 				}
 			}()
-			rig = http3.VerifH3SNewRig(script, mode, bodyKind, maxHdr)
+			rig = http3.VerifH3SNewRig(script, mode, bodyKind, noContent, maxHdr)
 			extra := r.Range(0, 2)
 			for k := 0; k < maxOps; k++ {
 				if withWrites && r.Chance(1, 3) {
@@ -702,7 +703,7 @@ func runH3Stream(w *bufio.Writer, seed uint64, n int, _ []string) {
 				resS = append(resS, u.App("RRead", h3hex(out), u.Pair(u.Z(c), u.Z(a))))
 				if firstErrCls < 0 {
 					got = append(got, out...)
-				} else if len(out) > 0 && (firstErrCls == http3.VerifH3SErrEOF || firstErrCls == http3.VerifH3SErrTooMuchData) {
+				} else if len(out) > 0 && (firstErrCls == http3.VerifH3SErrEOF || firstErrCls == http3.VerifH3SErrTooMuchData || firstErrCls == http3.VerifH3SErrUnexpectedEOF) {
 					fmt.Fprintf(w, "MONFAIL\th3stream/data-after-error\tRead returned %d bytes after an error (%d) had been returned\t%s ops=%v\n", len(out), firstErrCls, input, opsS)
 				}
 				lastCls, lastArg = c, a
@@ -766,9 +767,26 @@ func runH3Stream(w *bufio.Writer, seed uint64, n int, _ []string) {
 				fmt.Fprintf(w, "MONFAIL\th3stream/content-length-over\tbody longer than Content-Length %d: ended with error class %d after %d bytes, cancels=%v (want errTooMuchData after exactly the declared bytes, both directions reset once with H3_MESSAGE_ERROR)\t%s\n", mode, firstErrCls, len(got), script.Cancels, detail())
 			}
 		}
-		if wellformed && clScen == "cl-under" && finished && firstErrCls == http3.VerifH3SErrEOF {
-			// The property demands an error when the body is shorter than declared.
-			fmt.Fprintf(w, "MONFAIL\th3/content-length-under\tbody shorter than its declared Content-Length ends with plain io.EOF (no error): declared %d, delivered %d\t%s\n", mode, len(got), detail())
+		if wellformed && clScen == "cl-under" && finished && !noContent {
+			// The property demands an error when the body is shorter than declared: never a clean EOF,
+			// the error comes after exactly the bytes that were received, both directions are reset once.
+			nCR, nCW := 0, 0
+			for _, c := range script.Cancels {
+				if c[0] == 0 && c[1] == 0x10e {
+					nCR++
+				}
+				if c[0] == 1 && c[1] == 0x10e {
+					nCW++
+				}
+			}
+			if firstErrCls == http3.VerifH3SErrEOF {
+				fmt.Fprintf(w, "MONFAIL\th3/content-length-under\tbody shorter than its declared Content-Length ends with plain io.EOF (no error): declared %d, delivered %d\t%s\n", mode, len(got), detail())
+			} else if firstErrCls != http3.VerifH3SErrUnexpectedEOF || !bytes.Equal(got, total) || nCR != 1 || nCW != 1 || len(script.Cancels) != 2 {
+				fmt.Fprintf(w, "MONFAIL\th3stream/content-length-under\tbody shorter than Content-Length %d: ended with error class %d after %d of %d bytes, cancels=%v (want io.ErrUnexpectedEOF after exactly the received bytes, both directions reset once with H3_MESSAGE_ERROR)\t%s\n", mode, firstErrCls, len(got), len(total), script.Cancels, detail())
+			}
+		}
+		if wellformed && clScen == "cl-under" && finished && noContent && (firstErrCls != http3.VerifH3SErrEOF || !bytes.Equal(got, total) || len(script.Cancels) != 0) {
+			fmt.Fprintf(w, "MONFAIL\th3stream/no-content-exempt\tresponse to HEAD / 304 with a Content-Length and fewer bytes: ended with error class %d, cancels=%v (want clean EOF)\t%s\n", firstErrCls, script.Cancels, detail())
 		}
 		if scen == "reserved" && finished && clScen != "cl-over" && clScen != "cl-exact" {
 			cc, ok := rig.ConnClosed()
@@ -822,7 +840,7 @@ func runH3Stream(w *bufio.Writer, seed uint64, n int, _ []string) {
 			} else {
 				// Read∘Write = id, under a fresh short-read schedule and fresh buffer sizes
 				s2 := &http3.VerifH3SScript{Data: wire, Sched: h3Sched(r, len(wire)), Fin: http3.VerifH3SFin(1, 0), FinWith: r.Bool()}
-				rig2 := http3.VerifH3SNewRig(s2, -2, 0, 0)
+				rig2 := http3.VerifH3SNewRig(s2, -2, 0, false, 0)
 				var back []byte
 				var c int64
 				for k := 0; k < 100000 && c == 0; k++ {
@@ -849,7 +867,7 @@ func runH3Stream(w *bufio.Writer, seed uint64, n int, _ []string) {
 			nt = 1
 		}
 		fmt.Fprintf(w, "CASE %d %s\n", nt, u.App("StreamCase", h3hex(data), h3ints(sched), u.Pair(u.Z(fc), u.Z(fa)), u.B(fw),
-			u.Z(mode), u.ZU(maxHdr), u.Z(int64(wfail)), u.List(opsS), u.List(resS), h3pairs(script.Cancels), u.Opt(ccok, u.ZU(cc)),
+			u.Z(mode), u.B(noContent), u.ZU(maxHdr), u.Z(int64(wfail)), u.List(opsS), u.List(resS), h3pairs(script.Cancels), u.Opt(ccok, u.ZU(cc)),
 			u.List(tr), u.List(wr), u.ZU(rig.BytesRemainingInFrame()), u.Z(int64(len(script.Data)))))
 		dist[scen+"/"+clScen]++
 		if finished {
@@ -873,7 +891,7 @@ func runH3Stream(w *bufio.Writer, seed uint64, n int, _ []string) {
 func h3ReplayUnderWitness(w *bufio.Writer) {
 	for kind := 0; kind < 2; kind++ {
 		s := &http3.VerifH3SScript{Data: []byte{0x00, 0x03, 'a', 'b', 'c'}, Fin: http3.VerifH3SFin(1, 0)}
-		rig := http3.VerifH3SNewRig(s, 5, kind, 1000)
+		rig := http3.VerifH3SNewRig(s, 5, kind, false, 1000)
 		var got []byte
 		var c int64
 		for k := 0; k < 10 && c == 0; k++ {
